@@ -330,7 +330,7 @@ func (m *c20Mon) sweepReader(r *qLogReader, label string, instrument bool) (wins
 				return
 			}
 			q := r.qFiles[cf]
-			if q.buffer == nil {
+			if q == nil || q.buffer == nil {
 				return
 			}
 			if prev, ok := lastStart[cf]; !ok || prev != q.bufferStart {
@@ -817,6 +817,20 @@ func c20RunCase(rep *verifkit.Report, id int, kind, dir string, maxBytes, budget
 		rec.events["bytes_generated"] += int(f.size)
 		rec.events["lines_generated"] += len(f.lines)
 		rec.classes["file_profile:"+f.profile]++
+		rec.classes["timestamp_distribution:"+strings.SplitN(f.tsdist, " (", 2)[0]]++
+		if strings.Contains(f.tsdist, "1970") {
+			rec.classes["files_whose_first_record_is_on_1970-01-01"]++
+		}
+		if len(f.idle) > 0 {
+			rec.classes["files_with_idle_periods"]++
+			rec.events["idle_periods_generated"] += len(f.idle)
+			if f.size > 2*c20Entry {
+				rec.events["files_with_idle_periods_larger_than_a_probe_read(32KiB)"]++
+			}
+			if f.size > c20Window {
+				rec.events["files_with_idle_periods_larger_than_one_window"]++
+			}
+		}
 		if f.size > c20Window {
 			rec.events["files_larger_than_one_window"]++
 		}
@@ -923,6 +937,12 @@ func c20RunCase(rep *verifkit.Report, id int, kind, dir string, maxBytes, budget
 		for _, gi := range c20PresentTargets(rng, len(c.all), nearGlobal, budget) {
 			ops = append(ops, op{present: true, gi: gi})
 		}
+		for fi, f := range c.files {
+			for _, i := range f.timelineTargets() {
+				ops = append(ops, op{present: true, gi: c.first[fi] + i})
+				rec.events["reader_seek_present:chosen_by_the_timestamp_distribution"]++
+			}
+		}
 		// File boundary lines are always seek targets.
 		for fi := 1; fi < len(c.files); fi++ {
 			for _, gi := range []int{c.first[fi] - 1, c.first[fi], c.first[fi] + 1} {
@@ -978,6 +998,10 @@ func c20RunCase(rep *verifkit.Report, id int, kind, dir string, maxBytes, budget
 			for _, i := range c20PresentTargets(rng, len(f.lines), nearFile[fi], budget) {
 				ops = append(ops, op{present: true, idx: i})
 			}
+			for _, i := range f.timelineTargets() {
+				ops = append(ops, op{present: true, idx: i})
+				rec.events["file_seek_present:chosen_by_the_timestamp_distribution"]++
+			}
 			for _, a := range c20AbsentTargets(rng, f.lines, nil, nearFile[fi], budget) {
 				ops = append(ops, op{a: a})
 			}
@@ -1007,6 +1031,14 @@ func c20RunCase(rep *verifkit.Report, id int, kind, dir string, maxBytes, budget
 	}
 	if !m.dead {
 		m.fileHistories(verifkit.Pick(10, 14))
+	}
+	// Last, because they rename and replace the files.
+	if !m.dead {
+		nrot := verifkit.Pick(3, 5)
+		if tot := rec.events["bytes_generated"]; tot > 1<<20 {
+			nrot = verifkit.Pick(1, 2) // every history rewrites and re-reads the files
+		}
+		m.rotationHistories(nrot)
 	}
 	return rec
 }
@@ -1132,19 +1164,29 @@ func TestVerifC20(t *testing.T) {
 
 	// The run is only worth something if the interesting events happened.
 	need := map[string]int{
-		"window_reloads_inside_a_file":                               20,
-		"window_start:inside-a-line(line straddles the window edge)": 20,
-		"reader_seek_present:older-file":                             100,
-		"reads_after_seek_crossing_the_file_boundary":                10,
-		"files_larger_than_one_window":                               20,
-		"lines_cut_by_an_edge_of_the_first_probe_window":             50,
-		"file_seek_present:inner-line":                               1000,
-		"file_seek_present:first-line":                               50,
-		"file_seek_present:last-line":                                50,
-		"history(reader):reads_after_failed_seek(total)":             1000,
-		"history(file):reads_after_failed_seek(total)":               500,
-		"history(reader):reads_after_failed_seek_reaching_eof":       100,
-		"history(reader):read_runs_crossing_the_file_boundary":       50,
+		"window_reloads_inside_a_file":                                                                       20,
+		"window_start:inside-a-line(line straddles the window edge)":                                         20,
+		"reader_seek_present:older-file":                                                                     100,
+		"reads_after_seek_crossing_the_file_boundary":                                                        10,
+		"files_larger_than_one_window":                                                                       20,
+		"lines_cut_by_an_edge_of_the_first_probe_window":                                                     50,
+		"file_seek_present:inner-line":                                                                       1000,
+		"file_seek_present:first-line":                                                                       50,
+		"file_seek_present:last-line":                                                                        50,
+		"history(reader):rotations(total)":                                                                   1500,
+		"history(reader):rotation_with_two_non-empty_files:before-any-call":                                  20,
+		"history(reader):rotation_with_two_non-empty_files:after-SeekStart":                                  20,
+		"history(reader):rotation_with_two_non-empty_files:while-in-current-file":                            20,
+		"history(reader):rotation_with_two_non-empty_files:at-the-file-boundary":                             20,
+		"history(reader):rotation_with_two_non-empty_files:while-in-rotated-file":                            20,
+		"history(reader):rotation_with_two_non-empty_files:after-a-seek-into-the-rotated-file":               20,
+		"files_with_idle_periods_larger_than_a_probe_read(32KiB)":                                            20,
+		"files_with_idle_periods_larger_than_one_window":                                                     3,
+		"file_seek_present:chosen_by_the_timestamp_distribution":                                             2000,
+		"history(reader):reads_after_failed_seek(total)":                                                     1000,
+		"history(file):reads_after_failed_seek(total)":                                                       500,
+		"history(reader):reads_after_failed_seek_reaching_eof":                                               100,
+		"history(reader):read_runs_crossing_the_file_boundary":                                               50,
 		"history(reader):reads_after_failed_seek:before-first/target-in-before-everything/reader-in-current": 50,
 		"history(reader):reads_after_failed_seek:before-first/target-in-before-everything/reader-in-rotated": 20,
 		"history(reader):reads_after_failed_seek:between-neighbours/target-in-rotated/reader-in-current":     20,
